@@ -160,6 +160,11 @@ Definition rfa_match_x (tol : Qc) (m : res (list Qc * list Qc)) (ox : list Qc) (
             c = self.mk(rng, s, m=4, n=8)
             c["y"] = [0.0, 1.0, 1001.0, 1000.0]     # jumps in ratio 1:1000
             cases.append(c)
+            for n_, al_ in ((8, 0.5), (16, 0.5), (16, 0.25), (8, 0.75)):   # plateau longer than one sample, monotone averages
+                c = self.mk(rng, s, m=5, n=n_, a=None, alpha=al_)
+                c["x"] = [0.0, 1.0, 2.0, 3.0, 4.0] if n_ == 16 else [0.0, 1.0, 3.0, 4.0, 6.0]
+                c["y"] = [0.0, 10.0, 20.0, 30.0, 40.0] if al_ != 0.75 else [5.0, -3.0, 4.0, 4.0, -8.0]
+                cases.append(c)
         # n < 2 rejections
         for s in STRATS:
             for n in (1, 0, -1, 1.5):
@@ -532,8 +537,8 @@ class RfaMetaUnit(Unit):
                 if s in ("linadapt", "expadapt"):
                     # exactly representable maps only: integer series, power-of-two scales, integer shifts
                     c["y"] = [float(rng.randint(-8, 8)) for _ in c["y"]]
-                    c["ya"] = rng.choice([2.0, 0.5, -1.0, 4.0, -2.0])
-                    c["yb"] = float(rng.randint(-4, 4))
+                    c["ya"] = rng.choice([2.0, 0.5, -1.0, 4.0, -2.0, 2.0 ** -30, 2.0 ** 12])
+                    c["yb"] = float(rng.choice([rng.randint(-4, 4), rng.randint(-4, 4), 2 ** 20, -(2 ** 22)]))
                     c["xc"] = rng.choice([2.0, 0.5, 4.0])
                     c["xd"] = float(rng.randint(-4, 4))
                     if not adaptive_windows_exact(c)[2]:
